@@ -15,42 +15,65 @@ thread_local! {
 }
 
 pub fn first_repo_frame(bt: &str) -> String {
-    // frames look like "  12: apache_avro::reader::block::read_codec::{{closure}}"
-    for line in bt.lines() {
-        let t = line.trim_start();
-        let Some((_, sym)) = t.split_once(": ") else { continue };
-        let sym = sym.trim();
-        let idx = sym.find("apache_avro::").or_else(|| sym.find("apache_avro_derive::"));
-        if let Some(i) = idx {
-            // skip `<T as Trait>` prefix noise: take from the crate path
-            let mut s = &sym[i..];
-            if let Some(p) = s.find("::{{closure}}") {
-                s = &s[..p];
-            }
-            // strip trailing hash ::h0123456789abcdef
-            if let Some(p) = s.rfind("::h") {
-                if s.len() - p == 19 {
-                    s = &s[..p];
-                }
-            }
-            // strip generic arguments
-            let mut out = String::new();
-            let mut depth = 0;
-            for c in s.chars() {
-                match c {
-                    '<' => depth += 1,
-                    '>' => {
-                        if depth > 0 {
-                            depth -= 1
+    // frames look like
+    //   10: pcf_map
+    //              at /repo/avro/src/schema/mod.rs:1153:36
+    // the site is "<file relative to the repo>:<function>" of the first frame located in the
+    // repository's sources (no line numbers, so it only changes when the code is reorganised).
+    let lines: Vec<&str> = bt.lines().collect();
+    let mut i = 0;
+    while i + 1 < lines.len() {
+        let t = lines[i].trim_start();
+        let at = lines[i + 1].trim_start();
+        if let (Some((_, sym)), Some(path)) = (t.split_once(": "), at.strip_prefix("at ")) {
+            let rel = if let Some(p) = path.find("/avro/src/") {
+                Some(&path[p + 1..])
+            } else if let Some(p) = path.find("/avro_derive/src/") {
+                Some(&path[p + 1..])
+            } else {
+                None
+            };
+            if let Some(rel) = rel {
+                if !path.contains("/harness/") {
+                    let file = rel.split(':').next().unwrap_or(rel);
+                    let mut name = String::new();
+                    let mut depth = 0;
+                    for c in sym.trim().chars() {
+                        match c {
+                            '<' => depth += 1,
+                            '>' => {
+                                if depth > 0 {
+                                    depth -= 1
+                                }
+                            }
+                            _ if depth == 0 => name.push(c),
+                            _ => {}
                         }
                     }
-                    _ if depth == 0 => out.push(c),
-                    _ => {}
+                    if name.starts_with("{closure") {
+                        // name the enclosing function: the next repo frame in the same file
+                        let mut k = i + 2;
+                        while k + 1 < lines.len() {
+                            let t2 = lines[k].trim_start();
+                            let at2 = lines[k + 1].trim_start();
+                            if at2.contains(file) {
+                                if let Some((_, s2)) = t2.split_once(": ") {
+                                    let s2 = s2.trim();
+                                    if !s2.starts_with("{closure") {
+                                        let base: String = s2.chars().take_while(|c| *c != '<').collect();
+                                        return format!("{file}:{base}::{{closure}}");
+                                    }
+                                }
+                            }
+                            k += 2;
+                        }
+                    }
+                    return format!("{file}:{name}");
                 }
             }
-            let out = out.replace("::::", "::");
-            let out = out.trim_end_matches("::").trim_end_matches(" as").to_string();
-            return out;
+            i += 2;
+        } else {
+            i += 1;
         }
     }
     "?".to_string()
@@ -70,6 +93,9 @@ pub fn install() {
             .map(|l| format!("{}:{}", l.file(), l.line()))
             .unwrap_or_default();
         let bt = std::backtrace::Backtrace::force_capture().to_string();
+        if std::env::var_os("AVMON_DEBUG_BT").is_some() {
+            eprintln!("{bt}");
+        }
         let site = first_repo_frame(&bt);
         LAST.with(|l| *l.borrow_mut() = Some(PanicInfo { msg, loc, site }));
     }));
